@@ -18,7 +18,7 @@ func init() {
 	core.Register(&core.Check{
 		ID:    "C09",
 		Level: "model_checking",
-		Rule: "all object literals of <=4 (thorough 5) pairs over names {a,b,_p,_q} with <=2 `**` objects, all literals of 2..3 (thorough 4) distinct names out of 12 that differ only by a suffix, a digit or case (a, a!, a?, a_, a1, aa, Ab, b, _p, _p!, _p1, _Pq; listed order incl. after ** into an object or a map), and all map literals of <=4 (thorough 5) pairs over 14 key kinds plus `**map`/`**obj` combinations; " +
+		Rule: "all object literals of <=4 (thorough 5) pairs over names {a,b,_p,_q} with <=2 `**` objects, all literals of 2..3 (thorough 4) distinct names out of 12 that differ only by a suffix, a digit or case (a, a!, a?, a_, a1, aa, Ab, b, _p, _p!, _p1, _Pq; listed order incl. after ** into an object or a map), and all map literals of <=4 (thorough 5) pairs over 15 key kinds (incl. two floats that print alike) plus `**map`/`**obj` combinations; " +
 			"every accessor (keys/values/items with and without private?, A, iteration, S, ==, indexing by every key, len) is evaluated by the real interpreter and compared with an ordered-dictionary model; " +
 			"non-trivial = literal with a duplicate, a private name, an embedded container or a non-scalar key; distinct = distinct literal text",
 		Assumptions: []string{
@@ -231,7 +231,7 @@ type mkey struct {
 }
 
 var mkeys = []mkey{
-	{"1", "1", "int:1", true}, {"2", "2", "int:2", true}, {"1.0", "1.000000", "float:1", true}, {`"1"`, `"1"`, "str:1", true},
+	{"1", "1", "int:1", true}, {"2", "2", "int:2", true}, {"1.0", "1.000000", "float:1", true}, {"1.0000001", "1.000000", "float:1+eps", true}, {`"1"`, `"1"`, "str:1", true},
 	{"'a", `"a"`, "str:a", true}, {`"a"`, `"a"`, "str:a", true}, {"nil", "nil", "nil", true}, {"true", "true", "bool:true", true}, {"false", "false", "bool:false", true},
 	{"[1]", "[1]", "arr:[1]", false}, {"[1.0]", "[1.000000]", "arr:[1.0]", false}, {"[2]", "[2]", "arr:[2]", false},
 	{"{a: 1}", `{"a": 1}`, "obj:{a:1}", false}, {"%{}", "%{}", "map:{}", false},
@@ -246,10 +246,10 @@ type embMap struct {
 var embMaps = []embMap{
 	{"%{1: 91}", [][2]string{{"0", "91"}}, false},
 	{"%{2: 92, 1: 93}", [][2]string{{"1", "92"}, {"0", "93"}}, false},
-	{"%{[1]: 94}", [][2]string{{"9", "94"}}, false},
-	{`%{[2]: 95, "a": 96}`, [][2]string{{"5", "96"}, {"11", "95"}}, false}, // a map iterates scalar keys first
-	{"{a: 97}", [][2]string{{"5", "97"}}, true},
-	{"{b: 98, a: 99}", [][2]string{{"5", "99"}, {"b", "98"}}, true}, // object pairs in sorted name order
+	{"%{[1]: 94}", [][2]string{{"10", "94"}}, false},
+	{`%{[2]: 95, "a": 96}`, [][2]string{{"6", "96"}, {"12", "95"}}, false}, // a map iterates scalar keys first
+	{"{a: 97}", [][2]string{{"6", "97"}}, true},
+	{"{b: 98, a: 99}", [][2]string{{"6", "99"}, {"b", "98"}}, true}, // object pairs in sorted name order
 }
 
 type mpair struct {
@@ -374,7 +374,12 @@ func seqBody(t tcase) string {
 	fmt.Sscanf(t.Emb[1], "%d", &j)
 	fmt.Sscanf(t.Emb[2], "%d", &k)
 	if t.Kind == "objseq" {
-		return fmt.Sprintf("e0 := %s\ne1 := %s\ne2 := %s\nr1 := {**e0, **e1}\nr2 := {**e0, **e2}\n[r1.S, r2.S, e0.S, r1.items(private?: true), r2.items(private?: true), e0.items(private?: true), {**e0}.S]",
+		first := "{**e0, **e1}"
+		if t.Src != "" && strings.HasPrefix(t.Src, "call:") {
+			// the first merge happens in the argument list of a call (the keyword-argument object the callee receives)
+			first = "{|| \\_}(**e0, **e1)"
+		}
+		return fmt.Sprintf("e0 := %s\ne1 := %s\ne2 := %s\nr1 := "+first+"\nr2 := {**e0, **e2}\n[r1.S, r2.S, e0.S, r1.items(private?: true), r2.items(private?: true), e0.items(private?: true), {**e0}.S]",
 			embObjs[i].src, embObjs[j].src, embObjs[k].src)
 	}
 	return fmt.Sprintf("e0 := %s\ne1 := %s\ne2 := %s\nr1 := %%{**e0, **e1}\nr2 := %%{**e0, **e2}\n[r1.A, r2.A, e0.A, r1.len, r2.len, %%{**e0}.A]",
@@ -422,6 +427,7 @@ func genSeqs(emit func(tcase)) {
 		for j := range embObjs {
 			for k := range embObjs {
 				emit(tcase{Kind: "objseq", Src: fmt.Sprintf("{**%s, **%s} then {**%s, **%s}", embObjs[i].src, embObjs[j].src, embObjs[i].src, embObjs[k].src), Emb: []string{fmt.Sprint(i), fmt.Sprint(j), fmt.Sprint(k)}})
+				emit(tcase{Kind: "objseq", Src: fmt.Sprintf("call:f(**%s, **%s) then {**%s, **%s}", embObjs[i].src, embObjs[j].src, embObjs[i].src, embObjs[k].src), Emb: []string{fmt.Sprint(i), fmt.Sprint(j), fmt.Sprint(k)}})
 			}
 		}
 	}
